@@ -94,13 +94,25 @@ func (d *decoder) decodeSymbolDictionary(hdr *segmentHeader, data []byte) ([]*bi
 	}
 
 	// collect input symbols from referred segments
-	var inputSymbols []*bitmap.Bitmap
+	// (the list may name the same dictionary many times, so the pointers
+	// are counted and charged against the budget before they are copied)
+	sdNumInSyms := 0
+	for _, refNum := range hdr.RefSegments {
+		if ref, ok := d.segments[refNum]; ok && ref.symbols != nil {
+			sdNumInSyms += len(ref.symbols)
+		}
+	}
+	inputSymbols, err := d.pool.allocPointers(sdNumInSyms)
+	if err != nil {
+		return nil, err
+	}
+	defer d.pool.freePointers(inputSymbols)
+	inputSymbols = inputSymbols[:0]
 	for _, refNum := range hdr.RefSegments {
 		if ref, ok := d.segments[refNum]; ok && ref.symbols != nil {
 			inputSymbols = append(inputSymbols, ref.symbols...)
 		}
 	}
-	sdNumInSyms := len(inputSymbols)
 
 	if sdhuff {
 		return d.decodeSymbolDictHuffman(hdr, data[offset:], sdNumInSyms, sdNumNewSyms, sdNumExSyms,
